@@ -292,36 +292,64 @@ fn cpu_seconds(pid: u32) -> f64 {
 }
 
 /// Run one case on its own in a fresh worker.  Some(protocol lines) if it finished; None if it
-/// again used more than twice the CPU limit or ten times the wall limit (or died).
+/// again used more than twice the CPU limit (counted from the moment the case is reached) or ten
+/// times the wall limit, or died.
 fn rerun_alone(args: &[String], idx: u64, case_timeout: Duration, dir: &std::path::Path, extra_env: &[(String, String)]) -> Option<Vec<String>> {
     let exe = std::env::current_exe().unwrap();
     let out_path = dir.join(format!("rerun-{}.out", idx));
+    let prog_path = dir.join(format!("progress-rerun-{}", idx));
+    {
+        let mut pf = File::create(&prog_path).ok()?;
+        let mut init = vec![0u8; 64];
+        init[..8].copy_from_slice(&NO_CASE.to_le_bytes());
+        pf.write_all(&init).ok()?;
+    }
+    let pf = OpenOptions::new().read(true).write(true).open(&prog_path).ok()?;
+    let prog = unsafe {
+        use std::os::unix::io::AsRawFd;
+        let m = libc::mmap(std::ptr::null_mut(), 64, libc::PROT_READ, libc::MAP_SHARED, pf.as_raw_fd(), 0);
+        if m == libc::MAP_FAILED {
+            return None;
+        }
+        m as *const u64
+    };
     let f = File::create(&out_path).ok()?;
     let mut cmd = Command::new(exe);
-    cmd.args(args).env("VH_WORKER", "1").env("VH_ONLY", idx.to_string()).env("VH_SCRATCH_RUN", dir).env_remove("VH_PROGRESS").stdin(Stdio::null()).stdout(Stdio::from(f)).stderr(Stdio::null());
+    cmd.args(args).env("VH_WORKER", "1").env("VH_ONLY", idx.to_string()).env("VH_SCRATCH_RUN", dir).env("VH_PROGRESS", &prog_path).stdin(Stdio::null()).stdout(Stdio::from(f)).stderr(Stdio::null());
     for (k, v) in extra_env {
         cmd.env(k, v);
     }
     let mut child = cmd.spawn().ok()?;
+    let mut reached: Option<(Instant, f64)> = None;
     let start = Instant::now();
-    // enumeration up to the case costs CPU too: measure from the moment it is reached is not
-    // possible without a progress file, so the CPU budget is generous (limit x2 + enumeration)
-    let cpu_cap = case_timeout.as_secs_f64() * 2.0 + 120.0;
     let ok = loop {
         match child.try_wait() {
             Ok(Some(st)) => break st.success(),
             Ok(None) => {}
             Err(_) => break false,
         }
-        if cpu_seconds(child.id()) > cpu_cap || start.elapsed() > case_timeout * 10 + Duration::from_secs(600) {
+        let at = unsafe { std::ptr::read_volatile(prog) };
+        if reached.is_none() && at == idx {
+            reached = Some((Instant::now(), cpu_seconds(child.id())));
+        }
+        let over = match reached {
+            Some((t, c)) => cpu_seconds(child.id()) - c > case_timeout.as_secs_f64() * 2.0 || t.elapsed() > case_timeout * 10,
+            // enumerating up to the case: bounded by the time the whole run may take
+            None => start.elapsed() > Duration::from_secs(1800),
+        };
+        if over {
             let _ = child.kill();
             let _ = child.wait();
             break false;
         }
         std::thread::sleep(Duration::from_millis(50));
     };
+    unsafe {
+        libc::munmap(prog as *mut libc::c_void, 64);
+    }
     let text = std::fs::read_to_string(&out_path).unwrap_or_default();
     let _ = std::fs::remove_file(&out_path);
+    let _ = std::fs::remove_file(&prog_path);
     if !ok || !text.lines().any(|l| l.contains("\"t\":\"done\"")) {
         return None;
     }
@@ -357,6 +385,7 @@ pub fn run_sharded(args: &[String], nshards: usize, case_timeout: Duration, wall
     let mut slots: Vec<Slot> = (0..nshards).map(|s| spawn(args, s, nshards, -1, &dir, extra_env)).collect();
     let mut out = Outcome { records: vec![], stats: BTreeMap::new(), crashes: vec![], capped: false, wall_s: 0.0, machinery_errors: vec![], distinct: BTreeMap::new() };
     let max_crashes = 200usize;
+    let mut confirmed_hangs = 0usize;
 
     loop {
         let mut all_finished = true;
@@ -424,8 +453,12 @@ pub fn run_sharded(args: &[String], nshards: usize, case_timeout: Duration, wall
                 // process, again fails to finish (twice the CPU limit, or ten times the wall limit):
                 // on an overloaded machine a worker can lose its time slice for longer than any
                 // fixed limit, and that is not a property of the code under test.
-                if kind == "hang" {
-                    if let Some(lines) = rerun_alone(args, case_now, case_timeout, &dir, extra_env) {
+                if kind == "hang" && confirmed_hangs < 3 {
+                    let second = rerun_alone(args, case_now, case_timeout, &dir, extra_env);
+                    if second.is_none() {
+                        confirmed_hangs += 1;
+                    }
+                    if let Some(lines) = second {
                         for l in lines {
                             match serde_json::from_str::<Value>(&l) {
                                 Ok(v) => match v["t"].as_str() {
